@@ -17,7 +17,8 @@
 (* Apply / ApplyAll give the mutated byte sequence; the driver performs    *)
 (* exactly this splice (and is checked against ApplyAll on small seeds).   *)
 (*                                                                         *)
-(* Operators: Truncate, SetLength, SetValue, SetCount, Shrink (coupled),    *)
+(* Operators: Truncate, SetLength, SetValue, SetCount, Shrink and           *)
+(* ShrinkLast (coupled),                                                   *)
 (* SwapVR, DropDelimiter,                                                  *)
 (* StrayDelimiter, ZeroField, FlipByte, Garbage, DuplicateField,           *)
 (* DropField, InsertBytes, InsertRun (over-long / deep nesting), SetChar,  *)
@@ -251,6 +252,29 @@ ShrinkField(s, i) ==
 ShrinkClasses(f) == IF Limit(f) >= 0 THEN CountClasses \cup {"keep"} ELSE {"keep", "zero", "inc", "ffff"}
 MShrink(s)     == {Mut("Shrink", i, p, c) : i \in {j \in FieldIdx(s) : ShrinkField(s, j)}, p \in {0, 2, 4}, c \in LenClasses32 \cup CountClasses \cup {"keep"}}
 
+(* ShrinkLast: a sibling COUPLED mutation.  The structure q holding a length field is made  *)
+(* the LAST one of its parent: everything from p bytes after the field up to the end of the *)
+(* parent (the rest of q and all following siblings; of q itself when it has no parent) is   *)
+(* removed, the field is set to a short class v (0, 1, 2, 3, declared-1, "keep") and every   *)
+(* enclosing length field is corrected.  E.g. an A-ASSOCIATE-RQ whose User Information item  *)
+(* ends with a Maximum Length sub-item declaring 0..3 bytes and followed by 0..3 bytes; a     *)
+(* P-DATA PDU ending inside the 2-byte PDV header; an A-ABORT with a 1-byte body.            *)
+Parent(s, j) ==   \* index of the smallest pseudo structure strictly enclosing structure j (0: none)
+  LET q == s.fields[j]
+      E == {x \in FieldIdx(s) : /\ x # j /\ s.fields[x].k \in Pseudo
+                                /\ s.fields[x].o <= q.o /\ q.o + q.w <= s.fields[x].o + s.fields[x].w
+                                /\ s.fields[x].w > q.w}
+  IN IF E = {} THEN 0 ELSE CHOOSE x \in E : \A y \in E : s.fields[x].w <= s.fields[y].w
+ScopeEnd(s, i) == LET j == Inner(s, i) pj == Parent(s, j)
+                  IN IF pj = 0 THEN s.fields[j].o + s.fields[j].w ELSE s.fields[pj].o + s.fields[pj].w
+ShortClasses == {"zero", "one", "two", "three", "dec", "keep"}
+ShortValue(f, c) == CASE c = "zero" -> 0 [] c = "one" -> 1 [] c = "two" -> 2 [] c = "three" -> 3 [] c = "dec" -> f.v - 1 [] c = "keep" -> f.v
+ShrinkLastField(s, i) ==
+  /\ s.kind \in {"pdu", "dataset"}
+  /\ s.fields[i].k \in LenKinds /\ s.fields[i].v >= 0
+  /\ Encl(s, i) # {}
+MShrinkLast(s) == {Mut("ShrinkLast", i, p, c) : i \in {j \in FieldIdx(s) : ShrinkLastField(s, j)}, p \in {0, 1, 2, 3}, c \in ShortClasses}
+
 MSetChar(s)    == IF IsText(s) THEN {Mut("SetChar", i, 0, c) : i \in FieldIdx(s), c \in Alphabet} ELSE {}
 MInsertChar(s) == IF IsText(s) THEN {Mut("InsertChar", 0, k, c) : k \in Boundaries(s), c \in Alphabet} ELSE {}
 (* every string of length <= 3 over the small alphabet (only on the empty text seed) *)
@@ -262,6 +286,10 @@ StrBytes(t) == IF t = <<>> THEN <<>> ELSE SymBytes(Head(t)) \o StrBytes(Tail(t))
 Applicable(s, m) ==
   CASE m.m = "SetLength" -> (LET f == s.fields[m.f] IN m.v \in ClassesOf(f) /\ ClassApplies(f, m.v))
     [] m.m = "FlipByte" -> m.p = 0 \/ s.fields[m.f].w > 1
+    [] m.m = "ShrinkLast" -> (LET f == s.fields[m.f]
+                              IN /\ ShortValue(f, m.v) >= 0
+                                 /\ (m.v # "keep" => ShortValue(f, m.v) # f.v)
+                                 /\ f.o + f.w + m.p <= ScopeEnd(s, m.f))
     [] m.m = "Shrink" -> (LET f == s.fields[m.f]
                           IN /\ m.v \in ShrinkClasses(f)
                              /\ (m.v \in {"zero", "inc", "ffff"} => ClassApplies(f, m.v))
@@ -272,7 +300,7 @@ Applicable(s, m) ==
 MutsFull(s) ==
   {m \in MTruncate(s) \cup MSetLength(s) \cup MSetValue(s) \cup MSwapVR(s) \cup MDropDelim(s) \cup MStray(s) \cup MZero(s)
          \cup MFlip(s) \cup MGarbage(s) \cup MDuplicate(s) \cup MDrop(s) \cup MInsert(s) \cup MRun(s) \cup MSetChar(s) \cup MInsertChar(s)
-         \cup MSetCount(s) \cup MShrink(s)
+         \cup MSetCount(s) \cup MShrink(s) \cup MShrinkLast(s)
      : Applicable(s, m)}
 
 (* the structural core (used for pairs, and for the seeds of tier "core") *)
@@ -364,7 +392,23 @@ ShrinkEdits(s, m) ==
       fix   == SeqOfSet({Edit(s.fields[q].o, s.fields[q].w, Enc(s.fields[q].v - delta, s.fields[q].w, s.fields[q].be), 1, 0) : q \in LF})
   IN own \o <<Edit(cut, delta, <<>>, 1, 0)>> \o fix
 
-EditsOf(s, m) == IF m.m = "Shrink" THEN ShrinkEdits(s, m) ELSE <<EditOf(s, m)>>
+ShrinkLastEdits(s, m) ==
+  LET f    == s.fields[m.f]
+      cut  == f.o + f.w + m.p
+      send == ScopeEnd(s, m.f)
+      own  == IF m.v = "keep" THEN <<>> ELSE <<Edit(f.o, f.w, Enc(ShortValue(f, m.v), f.w, f.be), 1, 0)>>
+      \* what an enclosing structure E loses: the part of [cut, send) that lies inside it
+      Lost(j) == Min(s.fields[j].o + s.fields[j].w, send) - cut
+      LF   == {j \in Encl(s, m.f) : /\ LenFieldOf(s, j) # 0
+                                     /\ (LenFieldOf(s, j) # m.f \/ m.v = "keep")
+                                     /\ Lost(j) > 0
+                                     /\ s.fields[LenFieldOf(s, j)].v >= Lost(j)}
+      fix  == SeqOfSet({LET q == s.fields[LenFieldOf(s, j)] IN Edit(q.o, q.w, Enc(q.v - Lost(j), q.w, q.be), 1, 0) : j \in LF})
+  IN own \o <<Edit(cut, send - cut, <<>>, 1, 0)>> \o fix
+
+EditsOf(s, m) == IF m.m = "Shrink" THEN ShrinkEdits(s, m)
+                 ELSE IF m.m = "ShrinkLast" THEN ShrinkLastEdits(s, m)
+                 ELSE <<EditOf(s, m)>>
 RECURSIVE Concat(_)
 Concat(ss) == IF ss = <<>> THEN <<>> ELSE Head(ss) \o Concat(Tail(ss))
 
